@@ -6,7 +6,7 @@ use crate::output;
 use crate::{BrokerConverter, ConvertOutput};
 use chrono::NaiveDate;
 use rust_decimal::Decimal;
-use std::collections::HashMap;
+use std::collections::{HashMap, HashSet};
 
 pub use awards::{AwardLookup, AwardsData};
 
@@ -255,7 +255,9 @@ fn process_transactions(
         );
     }
 
-    // First pass: collect tax withholdings
+    // First pass: collect tax withholdings, and which (date, symbol) pairs have a dividend to
+    // attach them to
+    let mut dividend_keys: HashSet<(NaiveDate, String)> = HashSet::new();
     for txn in &transactions {
         match txn {
             SchwabTransactionsItem::Known(SchwabTransaction::NraTaxAdj(tax))
@@ -263,6 +265,16 @@ fn process_transactions(
                 if let (Some(symbol), Some(tax_amount)) = (tax.symbol.as_ref(), tax.amount) {
                     let key = (tax.date, symbol.clone());
                     *dividend_taxes.entry(key).or_insert(Decimal::ZERO) += tax_amount.abs();
+                }
+            }
+            SchwabTransactionsItem::Known(
+                SchwabTransaction::CashDividend(dividend)
+                | SchwabTransaction::QualifiedDividend(dividend)
+                | SchwabTransaction::ShortTermCapGain(dividend)
+                | SchwabTransaction::LongTermCapGain(dividend),
+            ) => {
+                if dividend.amount.is_some() {
+                    dividend_keys.insert((dividend.common.date, dividend.common.symbol.clone()));
                 }
             }
             _ => {}
@@ -356,6 +368,20 @@ fn process_transactions(
                             amount: amount_value,
                             tax,
                         });
+                    } else {
+                        // A dividend row without an amount yields no line: say so
+                        let comment = format!(
+                            "SKIPPED: Dividend - {} on {} (no amount)",
+                            common.symbol,
+                            common.date.format("%Y-%m-%d")
+                        );
+                        warnings.push(format!(
+                            "Dividend row for {} on {} has no amount — skipped.",
+                            common.symbol,
+                            common.date.format("%Y-%m-%d")
+                        ));
+                        cgt_transactions.push(CgtTransaction::Comment { comment });
+                        skipped_count += 1;
                     }
                 }
                 SchwabTransaction::StockSplit(split) => {
@@ -373,8 +399,27 @@ fn process_transactions(
                     });
                     skipped_count += 1;
                 }
-                SchwabTransaction::NraTaxAdj(_) | SchwabTransaction::NraWithholding(_) => {
-                    // Already processed in first pass
+                SchwabTransaction::NraTaxAdj(tax) | SchwabTransaction::NraWithholding(tax) => {
+                    // Processed in the first pass when there is a dividend on its date and
+                    // symbol to carry it. A row that names a symbol but finds no such dividend
+                    // (or has no amount) yields nothing: say so. (Rows without a symbol are
+                    // ignored, as before.)
+                    if let Some(symbol) = tax.symbol.as_ref() {
+                        let attached = tax.amount.is_some()
+                            && dividend_keys.contains(&(tax.date, symbol.clone()));
+                        if !attached {
+                            let date = tax.date.format("%Y-%m-%d");
+                            warnings.push(format!(
+                                "Tax withholding row for {symbol} on {date} has no dividend on that date — skipped."
+                            ));
+                            cgt_transactions.push(CgtTransaction::Comment {
+                                comment: format!(
+                                    "SKIPPED: Tax withholding - {symbol} on {date} (no dividend on that date to attach it to)"
+                                ),
+                            });
+                            skipped_count += 1;
+                        }
+                    }
                 }
                 SchwabTransaction::NonCgt => {
                     skipped_count += 1;
